@@ -4,8 +4,10 @@ import (
 	"fmt"
 	"os"
 	"regexp"
+	"strconv"
 	"strings"
 	"sync"
+	"time"
 )
 
 // minimise shrinks the tape of a violating run by delta debugging (zeroing and
@@ -60,6 +62,14 @@ func minimise(sc *scratch, cfg *propCfg, first *runResult, kf *knownFile) *repla
 		return nil
 	}
 	budget := 500
+	// wall-clock budget per violation class (seconds)
+	deadline := time.Now().Add(45 * time.Second)
+	if v := os.Getenv("VERIF_MIN_SECONDS"); v != "" {
+		if n, err := strconv.Atoi(v); err == nil {
+			deadline = time.Now().Add(time.Duration(n) * time.Second)
+		}
+	}
+	over := func() bool { return tests >= budget || time.Now().After(deadline) }
 	parallel := func(cs []cand) []bool {
 		out := make([]bool, len(cs))
 		var wg sync.WaitGroup
@@ -86,7 +96,7 @@ func minimise(sc *scratch, cfg *propCfg, first *runResult, kf *knownFile) *repla
 			return
 		}
 		// 2. shortest failing prefix (coarse)
-		for tests < budget {
+		for !over() {
 			v := get(cur)
 			if len(v) < 2 {
 				break
@@ -113,7 +123,7 @@ func minimise(sc *scratch, cfg *propCfg, first *runResult, kf *knownFile) *repla
 			cur = cs[best]
 		}
 		// 3. zero chunks
-		for size := len(get(cur)) / 2; size >= 1 && tests < budget; size /= 2 {
+		for size := len(get(cur)) / 2; size >= 1 && !over(); size /= 2 {
 			v := get(cur)
 			var cs []cand
 			var starts []int
@@ -142,8 +152,25 @@ func minimise(sc *scratch, cfg *propCfg, first *runResult, kf *knownFile) *repla
 			}
 			res := parallel(cs)
 			// apply successful zeroings one after another
+			// first try all successful zeroings together, then one after another
+			all := clone(get(cur))
+			nok := 0
 			for i := range cs {
-				if !res[i] {
+				if res[i] {
+					nok++
+					for j := starts[i]; j < starts[i]+size && j < len(all); j++ {
+						all[j] = 0
+					}
+				}
+			}
+			if nok > 1 {
+				if _, ok := test(set(cur, all), false); ok {
+					cur = set(cur, all)
+					continue
+				}
+			}
+			for i := range cs {
+				if !res[i] || over() {
 					continue
 				}
 				w := clone(get(cur))
@@ -160,7 +187,7 @@ func minimise(sc *scratch, cfg *propCfg, first *runResult, kf *knownFile) *repla
 	shrink(func(c cand) []int { return c.sched }, func(c cand, v []int) cand { return cand{c.plan, v} })
 	shrink(func(c cand) []int { return c.plan }, func(c cand, v []int) cand { return cand{v, c.sched} })
 	// lower remaining plan values towards 1
-	for i := 0; i < len(cur.plan) && tests < budget+100; i++ {
+	for i := 0; i < len(cur.plan) && !over(); i++ {
 		if cur.plan[i] > 1 {
 			w := clone(cur.plan)
 			w[i] = 1
